@@ -158,7 +158,7 @@ Qed.
 Lemma range_check w i : valid_index w i -> (i <? 0) || (Z.of_nat (length (w_insts w)) <=? i) = false.
 Proof. intros [H1 H2]. apply orb_false_iff. split; [apply Z.ltb_ge | apply Z.leb_gt]; lia. Qed.
 
-Lemma notify_uninitialized hs n new : notify hs n None new = [].
+Lemma notify_uninitialized hs n b new : notify hs n None b new = [].
 Proof. reflexivity. Qed.
 
 (* first read of an unassigned trait: the declared default, freshly allocated, stored, silent *)
@@ -312,6 +312,7 @@ Proof.
       unfold calls_ok in *. cbn [i_calls i_dict] in *. eapply Forall_impl; [|exact H1].
       intros p [Hc Hin]. split; [exact Hc | apply aset_mono, Hin].
   - (* Register *)
+    destruct (n =? any_name); [cbn [fst]; apply calls_ok_mono; [exact Hok | auto]|].
     destruct (resolve w ins n) as [t|]; [|exact Hok]. cbn [fst].
     apply calls_ok_mono; [exact Hok | auto].
   - (* AddTrait *)
@@ -525,23 +526,16 @@ Section Alloc.
            match goal with |- context [if ?c then _ else _] => destruct c end; [|exact Hi'];
            apply ensure_itrait_below; [exact Hi'|]; pose proof (resolve_below ins n t Hi Er); lia).
     - (* Mutate *)
-      set (fix_ := fun (v : value) (its : list (Z * tdef)) =>
-                    if (v_shape v =? 5)
-                       && negb match alookup n (class_of w ins) with Some ct => has_items (t_kind ct) | None => false end
-                    then match alookup (items_name n) its with
-                         | Some _ => its
-                         | None =>
-                             match alookup trait_added (its ++ [(items_name n, mkT KEvent [] 0 0 0 false)]),
-                                   alookup trait_added (class_of w ins) with
-                             | None, Some ta => (its ++ [(items_name n, mkT KEvent [] 0 0 0 false)]) ++ [(trait_added, ta)]
-                             | _, _ => its ++ [(items_name n, mkT KEvent [] 0 0 0 false)]
-                             end
-                         end
-                    else its).
-      assert (Hfix : forall v its b, w_next w <= b -> below b (itrait_oids its) -> below b (itrait_oids (fix_ v its))).
-      { intros v its b Hle Hb. unfold fix_. destruct (_ && _); [|exact Hb].
-        destruct (alookup (items_name n) its); [exact Hb|].
-        apply (fire_below _ ins b Hle). apply below_itraits_snoc; [exact Hb | cbn; lia]. }
+      assert (Hfix : forall v its b, w_next w <= b -> below b (itrait_oids its) ->
+                                     below b (itrait_oids (any_fix ins n v (items_fix w ins n v its)))).
+      { intros v its b Hle Hb.
+        assert (H1 : below b (itrait_oids (items_fix w ins n v its))).
+        { unfold items_fix. destruct (_ && _); [|exact Hb].
+          destruct (alookup (items_name n) its); [exact Hb|].
+          apply (fire_below _ ins b Hle). apply below_itraits_snoc; [exact Hb | cbn; lia]. }
+        unfold any_fix. destruct (_ && _); [|exact H1].
+        destruct (alookup (items_name n) (items_fix w ins n v its)); [exact H1|].
+        apply below_itraits_snoc; [exact H1 | cbn; lia]. }
       destruct (alookup n (i_dict ins)) as [v|] eqn:Ed.
       + split; [lia|]. rewrite inst_oids_split. cbn [i_dict i_itraits]. apply below_app. split.
         * apply below_dict_aset; [exact Hd|]. rewrite value_oids_mutate. eapply below_dict_lookup; eassumption.
@@ -554,6 +548,8 @@ Section Alloc.
           eapply Forall_impl; [|exact H4]. intros; cbn in *; lia.
         * rewrite H3. apply Hfix; [exact H1 | eapply below_weaken; eassumption].
     - (* Register *)
+      destruct (n =? any_name).
+      { split; [lia|]. rewrite inst_oids_split. cbn [i_dict i_itraits]. apply below_app. split; assumption. }
       destruct (resolve w ins n) as [t|] eqn:Er; [|exact Hsame]. split; [lia|].
       rewrite inst_oids_split. cbn [i_dict i_itraits]. apply below_app. split; [exact Hd|].
       pose proof (resolve_below ins n t Hi Er) as Ht.
